@@ -203,7 +203,19 @@ def _check_path(item, rep, eng):
         if ok and key.startswith('exception='):
             rep.violation(f'{key}@{name}/{variant}', what, {'recipe': recipe, 'sims': sims, 'variant': variant, 'in_bytes': []})
         else:
-            rep.error(f'symbolic run failed on {name}/{variant}: {type(e).__name__}: {e}')
+            # the code under test does something the lane values cannot follow: concrete stimuli instead (not a solver verdict - said so)
+            import random
+            rng = random.Random(f'{name}/{variant}')
+            c0 = netlist.from_recipe(recipe); s0 = LogicSim(c0, sims, m=2)
+            for _ in range(24):
+                mb = {(i, 0, b): rng.choice((0, 255, rng.randrange(256))) for i in range(s0.s_len) for b in range(s0.c.shape[-1])}
+                ok, key, what = classify(recipe, sims, variant, mb)
+                rep.counts['concrete_fallback_runs'] += 1
+                if ok:
+                    rep.violation(f'{key}@{name}/{variant}' if key.startswith('exception=') else key, what + ' (concrete stimulus; the symbolic run was not possible)',
+                                  {'recipe': recipe, 'sims': sims, 'variant': variant, 'in_bytes': [[list(k), v] for k, v in mb.items() if v]})
+                    return
+            rep.error(f'symbolic run failed on {name}/{variant}: {type(e).__name__}: {e} (24 concrete stimuli show no mismatch)')
         return
     rep.counts['circuits'] += 1
     rep.counts['obligations'] += len(obl)
